@@ -170,3 +170,14 @@ M("relay-dispatch-on-wrong-fd", ["C20"], XREL, "\tif (fd == xcm_fd(relay->dst_co
 M("relay-receive-full-buffer-len", ["C20"], XREL, "\trelay->data_len = rc;\n\txfwd_await_output(relay);", "\trelay->data_len = rc > 60000 ? sizeof(relay->data) : rc;\n\txfwd_await_output(relay);")
 M("relay-msg-partial-as-stream", ["C20"], XREL, "    if (rc == 0) /* message-oriented transport */\n\trelay->data_len = 0;", "    if (rc == 0 && relay->data_len < 65000) /* message-oriented transport */\n\trelay->data_len = 0;")
 M("relay-eagain-drops-message", ["C20"], XREL, "\telse if (errno != EAGAIN)\n\t    xfwd_handle_err(relay, \"Error sending to XCM\");\n\treturn;", "\telse if (errno != EAGAIN)\n\t    xfwd_handle_err(relay, \"Error sending to XCM\");\n\telse if (relay->data_len < 100) relay->data_len = 0;\n\treturn;")
+
+# ---- C14
+CTL = "libxcm/ctl/ctl.c"
+M("ctl-accepts-any-datagram-size", ["C14"], CTL, "    } else if (recv_rc != sizeof(struct ctl_proto_msg)) {", "    } else if (0) {")
+M("ctl-sensitive-is-key-file", ["C14"], CTL, "    return strcmp(attr_name, XCM_ATTR_TLS_KEY) == 0;", "    return strcmp(attr_name, XCM_ATTR_TLS_KEY_FILE) == 0;")
+M("ctl-no-unlink-on-close", ["C14"], CTL, "\tif (rc == 0 && owner)\n\t    unlink(laddr.sun_path);\n", "")
+M("ctl-get-attr-capacity-too-large", ["C14"], CTL, "\t\t\t  &cfm->attr.any_value, sizeof(cfm->attr.any_value));", "\t\t\t  &cfm->attr.any_value, sizeof(cfm->attr));")
+M("ctl-sensitive-not-cleared", ["C14"], CTL, "    if (is_sensitive(req->attr_name)) {\n\tclear_attr(&cfm->attr);", "    if (is_sensitive(req->attr_name)) {")
+M("ctl-get-all-includes-key", ["C14"], CTL, "    if (is_sensitive(attr_name))\n\treturn;\n\n    struct ctl_proto_get_all_attr_cfm *cfm = data;", "    struct ctl_proto_get_all_attr_cfm *cfm = data;")
+M("ctl-rej-errno-lost", ["C14"], CTL, "\tresponse->get_attr_rej.rej_errno = attr_errno;", "\tresponse->get_attr_rej.rej_errno = ENOENT;")
+M("ctl-value-len-off-by-one", ["C14"], CTL, "\tcfm->attr.value_len = rc;", "\tcfm->attr.value_len = rc > 3 ? rc - 1 : rc;")
